@@ -85,6 +85,8 @@ fn default_max_udp_socket() -> usize {
     128
 }
 
+const MAX_UDP_SOCKET_LIMIT: usize = 1 << 20;
+
 pub fn from_value(value: &Value) -> Result<Box<dyn Listener>, Error> {
     let ret: TProxyListener = serde_yaml::from_value(value.clone()).context("parse config")?;
     Ok(Box::new(ret))
@@ -93,6 +95,13 @@ pub fn from_value(value: &Value) -> Result<Box<dyn Listener>, Error> {
 #[async_trait]
 impl Listener for TProxyListener {
     async fn init(&mut self) -> Result<(), Error> {
+        // the cache allocates its table up front: an absurd size would abort the process here
+        if self.max_udp_socket > MAX_UDP_SOCKET_LIMIT {
+            return Err(err_msg(format!(
+                "max_udp_socket must not exceed {}: {}",
+                MAX_UDP_SOCKET_LIMIT, self.max_udp_socket
+            )));
+        }
         self.inner = Some(
             Internals {
                 sessions: Default::default(),
